@@ -89,6 +89,49 @@ theorem C01_accepted_indent_nonneg (env : Env) (cfg : Config) (st : Writer.St) (
     (hok : (Writer.step env cfg st (.preamble text enc (some n) le mime)).2 = .ok) : 0 ≤ n :=
   Writer.step_preamble_ok_indent_nonneg env cfg st text enc n le mime hok
 
+/-- **An accepted call had a well-formed encoding name.** The `encOk` law of every
+`CallLaws` (`NameOk`: the name is ASCII, made of option-value characters, and not something
+`int()` accepts) is implied by acceptance: `_write_section_header` refuses any other value
+(`DiffXOptionValueError`).  `Writer.callEncoding c` is the call's own `encoding=` argument —
+`new_change` / `new_file` as well as `add_preamble` / `add_meta` / `add_diff`. -/
+theorem C01_accepted_nameOk (env : Env) (cfg : Config) (st : Writer.St) (c : Writer.Call) (n : Name)
+    (hn : Writer.callEncoding c = some n) (hok : (Writer.step env cfg st c).2 = .ok) : NameOk n :=
+  (nameOk_iff_not_refused n).2 (Writer.step_ok_enc env cfg st c n hn hok)
+
+/-- … as the `EncOk` law itself -/
+theorem C01_accepted_encOk (env : Env) (cfg : Config) (st : Writer.St) (c : Writer.Call)
+    (hok : (Writer.step env cfg st c).2 = .ok) : EncOk (Writer.callEncoding c) :=
+  fun n hn => C01_accepted_nameOk env cfg st c n hn hok
+
+/-- … spelled out for the container calls -/
+theorem C01_accepted_container_nameOk (env : Env) (cfg : Config) (st : Writer.St) (n : Name) :
+    ((Writer.step env cfg st (.newChange (some n))).2 = .ok → NameOk n) ∧
+    ((Writer.step env cfg st (.newFile (some n))).2 = .ok → NameOk n) :=
+  ⟨C01_accepted_nameOk env cfg st _ n rfl, C01_accepted_nameOk env cfg st _ n rfl⟩
+
+/-- … and for the content calls that carry their own encoding -/
+theorem C01_accepted_content_nameOk (env : Env) (cfg : Config) (st : Writer.St) (n : Name) :
+    (∀ text indent le mime,
+      (Writer.step env cfg st (.preamble text (some n) indent le mime)).2 = .ok → NameOk n) ∧
+    (∀ m fmt, (Writer.step env cfg st (.metadata m (some n) fmt)).2 = .ok → NameOk n) ∧
+    (∀ content dtype le, (Writer.step env cfg st (.diff content dtype (some n) le)).2 = .ok → NameOk n) :=
+  ⟨fun _ _ _ _ => C01_accepted_nameOk env cfg st _ n rfl,
+   fun _ _ => C01_accepted_nameOk env cfg st _ n rfl,
+   fun _ _ _ => C01_accepted_nameOk env cfg st _ n rfl⟩
+
+/-- **An accepted constructor call had a well-formed encoding name**: the `encOk` field of
+`ProgramLaws` is implied by `DiffXWriter(fp, encoding=n, version=v)` not raising. -/
+theorem C01_init_nameOk (n : Name) (v : Text) (hok : (Writer.init (some n) v).2 = .ok) : NameOk n :=
+  (nameOk_iff_not_refused n).2 (Writer.init_ok_enc n v hok)
+
+/-- conversely a name that is not `NameOk` is refused by every call that carries it:
+the call does not succeed and the writer is unchanged -/
+theorem C01_not_nameOk_rejected (env : Env) (cfg : Config) (st : Writer.St) (c : Writer.Call) (n : Name)
+    (hn : Writer.callEncoding c = some n) (hbad : ¬ NameOk n) :
+    (Writer.step env cfg st c).2 ≠ .ok ∧ (Writer.step env cfg st c).1 = st := by
+  have hne : (Writer.step env cfg st c).2 ≠ .ok := fun hok => hbad (C01_accepted_nameOk env cfg st c n hn hok)
+  exact ⟨hne, Writer.step_atomic env cfg st c hne⟩
+
 /-! ## Non-vacuity: a concrete program, its laws, and the conclusion as a closed true equation -/
 
 /-- `asciiEnv` with JSON functions for which the JSON laws hold: every dict dumps to `{}`,
